@@ -158,7 +158,47 @@ class C02(Campaign):
         prog = sc["programs"][0]
         if prog["model"].get("kind", "attr") == "attr" and rnd.random() < 0.15:
             prog["model"]["kind"] = "libmodel"  # the user's model class extends statemachine.model.Model
+        plain = not any(prog.get(f) for f in ("any", "event_decl", "event_names")) and not any(
+            t.get(f) for t in prog["trans"] for f in ("orgroup", "devent", "msrc"))
+        if plain and rnd.random() < 0.15:
+            self.drive_a_subclass(rnd, sc)
         return sc
+
+    @staticmethod
+    def drive_a_subclass(rnd, sc):
+        """The machine that is driven is an instance of a SUBCLASS that adds states and transitions --
+        some of them leaving inherited states -- with naming-convention callbacks of their own."""
+        import copy
+
+        from .isolation import make_subclass
+
+        prog = sc["programs"][0]
+        sub = make_subclass(rnd, prog, "S0", "simgen_s0")
+        new_events = [e for e in sub["events"] if e not in prog["events"]]
+        roles = ["machine", "model"] + list(sub["listeners"])
+        for e in new_events + [rnd.choice(sub["events"])]:
+            for nm, grp in ((f"before_{e}", "before"), (f"on_{e}", "on"), (f"after_{e}", "after")):
+                cb = f"{rnd.choice(roles)}.{nm}"
+                if rnd.random() < 0.6 and cb not in sub["cbs"] and f"machine.{nm}" not in sub["cbs"]:
+                    sub["cbs"][cb] = {"group": grp, "sig": gen.basic_sig(rnd)}
+        for c in sub["cbs"]:
+            if not c.startswith("machine."):
+                for table in (sc["beh"], sc["gv"], sc.get("gv_kind", {})):
+                    if f"{prog['name']}/{c}" in table:
+                        table[f"{sub['name']}/{c}"] = copy.deepcopy(table[f"{prog['name']}/{c}"])
+        sc["programs"].append(sub)
+        for o in sc["ops"]:
+            if o["op"] == "new":
+                o["prog"] = 1
+        extra = []
+        for o in sc["ops"][1:]:
+            if o["op"] == "send" and new_events and rnd.random() < 0.4:
+                extra.append(dict(o, event=rnd.choice(new_events), style="send"))
+            extra.append(o)
+        sc["ops"] = sc["ops"][:1] + extra
+        for g in sc["gv"].values():
+            while len(g) < len(sc["ops"]):
+                g.append(g[-1])
 
     def nontrivial(self, sc, ev):
         groups = 0
